@@ -9,7 +9,14 @@ Dimensions of a case besides the notes (all fields of the JSON case, none enters
           offset (first row sliced off), gappy (rows filtered out by a mask) - the list CONTENT is that of the case
   tempo / svs   the tempo list and the SV list empty, one row, two rows in time order / not in time order / at the same time
   ints    all times and lengths python ints (int64 columns)
-  then    a second call in the same process: on the RESULT of the first (chain) or on the same input object again
+  then    a second call in the same process: on the RESULT of the first (chain), on the same input object again, or
+          ("edited") on the same input object after it was CHANGED through public operations (EDITS: times of both note
+          lists / of every list through the stack shifted in place, hold lengths changed in place, all hits moved to one
+          column, a hit or a hold appended (a new list assigned), a tempo point appended, the chart replaced by its
+          rate(2) / rate(0.5)); the second call is judged against the notes the chart holds THEN
+  fields  every game-specific column the note lists carry (names read from the lists' own frames) holds non-default
+          values; nothing is asserted about them, the clauses about times / columns / lengths must hold all the same
+  value range: columns up to 255, a negative hold length on a column's last note, gap / threshold 0 and 1e9
 """
 from __future__ import annotations
 
@@ -34,6 +41,8 @@ DEFAULT_GAP, DEFAULT_THRES = 150, 100        # the documented signature: full_ln
 CALLS = ["kw", "defaults", "gap_only", "thres_only", "np", "pos_float"]
 LABELS = ["sorted", "reversed", "offset", "gappy"]
 TEMPO = ["none", "one", "tied", "unordered"]
+EDITS = ["shift_notes", "stack_shift", "lengthen", "one_column", "append_hit", "append_hold", "append_hit_list", "append_bpm", "rate2", "rate_half"]
+WIDE_COLUMNS = [[0, 17, 255], [9], [254, 255]]
 
 
 def _game(game):
@@ -111,11 +120,68 @@ def _build(case):
             m.lifts = SMLiftList([SMLift(offset=t, column=c) for t, c in ex["lifts"]])
         if ex.get("fakes"):
             m.fakes = SMFakeList([SMFake(offset=t, column=c) for t, c in ex["fakes"]])
+    if case.get("fields"):
+        _fill_fields(m)
     if case["game"] == "osu" and case.get("tempo", "two") != "none":
         from reamber.osu.OsuSample import OsuSample
         from reamber.osu.lists.OsuSampleList import OsuSampleList
 
         m.samples = OsuSampleList([OsuSample(offset=100.0, sample_file="a.wav", volume=30)])
+    return m
+
+
+def _fill_fields(m):
+    """Non-default values in every further column the note lists carry - the names and the kind of value are read from
+    the lists' own frames, the values go in through the list property of that name."""
+    for lst in (m.hits, m.holds):
+        df = lst.df
+        n = len(df)
+        for name in [str(c) for c in df.columns]:
+            if name in ("offset", "column", "length") or n == 0:
+                continue
+            v = df[name].iloc[0]
+            if isinstance(v, (bool,)) or type(v).__name__ == "bool_":
+                new = [i % 2 == 0 for i in range(n)]
+            elif isinstance(v, int) or type(v).__name__.startswith("int"):
+                new = [(i * 3 + 1) % 5 for i in range(n)]
+            elif isinstance(v, float) or type(v).__name__.startswith("float"):
+                new = [0.5 * i + 1 for i in range(n)]
+            elif isinstance(v, str):
+                new = [f"s{i}.wav" for i in range(n)]
+            elif isinstance(v, bytes):
+                new = [[b"0A", b"ZZ"][i % 2] for i in range(n)]
+            else:
+                continue
+            setattr(lst, name, new)
+
+
+def _edit(m, kind, kw):
+    """A legitimate change of the chart between two calls, through public operations; -> the chart to call next."""
+    H, L, B = type(m.hits)._item_class(), type(m.holds)._item_class(), type(m.bpms)._item_class()
+    if kind == "shift_notes":
+        m.hits.offset += 50.0
+        m.holds.offset += 50.0
+    elif kind == "stack_shift":
+        s = m.stack()
+        s.offset += 50.0
+    elif kind == "lengthen":
+        m.holds.length += 20.0
+    elif kind == "one_column":
+        m.hits.column = [0] * len(m.hits.df)
+    elif kind == "append_hit":
+        m.hits = m.hits.append(H(offset=150.0, column=0, **kw))
+    elif kind == "append_hold":
+        m.holds = m.holds.append(L(offset=125.0, column=0, length=500.0, **kw), sort=True)
+    elif kind == "append_hit_list":
+        m.hits = m.hits.append(type(m.hits)([H(offset=150.0, column=0, **kw), H(offset=-25.0, column=1, **kw)]))
+    elif kind == "append_bpm":
+        m.bpms = m.bpms.append(B(offset=600.0, bpm=99.0))
+    elif kind == "rate2":
+        return m.rate(2.0)
+    elif kind == "rate_half":
+        return m.rate(0.5)
+    else:
+        raise ValueError(kind)
     return m
 
 
@@ -200,13 +266,21 @@ def _run_case(case):
     failed = []
     m = _build(case)
     steps = [(case["gap"], case["thres"], case.get("call", "pos"), "first")]
-    for g, t, mode in case.get("then") or []:
-        steps.append((g, t, "pos", mode))
+    for g, t, mode, *edit in case.get("then") or []:
+        steps.append((g, t, "pos", mode + (":" + edit[0] if edit else "")))
     r = None
     for gap, thres, how, mode in steps:
+        mode, _, edit = mode.partition(":")
+        if mode == "edited":                   # the same input object, changed through public operations in between
+            try:
+                m = _edit(m, edit, _game(case["game"])[1])
+            except Exception as ex:
+                failed.append(("completes_for_every_game", f"the public edit {edit} between the two calls raised {type(ex).__name__}: {ex}"))
+                break
         src = r if mode == "chain" else m      # "again": the same input object once more
-        found, r = _check_call(case, src, gap, thres, how, from_case=mode != "chain")
-        tag = {"first": "", "chain": "[second call, on the result of the first] ", "again": "[second call, on the same input object] "}[mode]
+        found, r = _check_call(case, src, gap, thres, how, from_case=mode != "chain", item_appended=edit in ("append_hit", "append_hold"))
+        tag = {"first": "", "chain": "[second call, on the result of the first] ", "again": "[second call, on the same input object] ",
+               "edited": f"[second call, on the same input object after the edit {edit}] "}[mode]
         for what, d in found:
             if what not in {w for w, _ in failed}:
                 failed.append((what, tag + d))
@@ -223,8 +297,11 @@ def _single_row_reversed(case):
     return (len(h) == 1 and not l and lab.get("hits") == "reversed") or (len(l) == 1 and not h and lab.get("holds") == "reversed")
 
 
-def _check_call(case, m, gap_arg, thres_arg, how, from_case=True):
-    """One real call on chart `m` against the statement; -> ([(what, detail)], result | None)."""
+def _check_call(case, m, gap_arg, thres_arg, how, from_case=True, item_appended=False):
+    """One real call on chart `m` against the statement; -> ([(what, detail)], result | None).
+    item_appended: a note list of `m` was extended by append(<one item>) just before - an exception then goes to the clause
+    `completes_after_append_of_an_item` (a class of its own: in games whose items carry text fields such a list has
+    object-typed columns), so that `completes_for_every_game` stays exercised by everything else."""
     failed = []
     gap, thres = Fraction(gap_arg), Fraction(thres_arg)
     before_notes = _notes_of(m)
@@ -234,6 +311,8 @@ def _check_call(case, m, gap_arg, thres_arg, how, from_case=True):
     except Exception as ex:
         # charts whose single note is in a reversed one-row list are kept apart, so that this clause stays exercised by all others
         what = "completes_when_single_row_list_was_reversed" if (from_case and _single_row_reversed(case)) else "completes_for_every_game"
+        if item_appended and what == "completes_for_every_game":
+            what = "completes_after_append_of_an_item"
         return [(what, f"full_ln raised {type(ex).__name__}: {ex}")], None
 
     # result list classes = the input's classes
@@ -299,6 +378,8 @@ def _random_case(rng, game, n_notes):
     else:
         grid, ints = GRID_I, True
     cols = rng.choice([[0, 1, 2], [0, 1, 2], [0, 1], [0], [0, 3, 6], [5]])   # fewer columns -> longer columns / stacks; unused ones (also in the middle) are empty
+    if rng.random() < 0.08:
+        cols = rng.choice(WIDE_COLUMNS)                                    # the upper end of a column number
     lengths = HOLD_LENGTHS_I if ints else HOLD_LENGTHS
     hits, holds = [], []
     for _ in range(n_notes):
@@ -327,6 +408,17 @@ def _random_case(rng, game, n_notes):
         case["svs"] = rng.choice(TEMPO)
     if rng.random() < 0.15:     # a second call in the same process
         case["then"] = [[rng.choice(SETTINGS), rng.choice(SETTINGS), rng.choice(["chain", "again"])]]
+    elif rng.random() < 0.2:    # ... on the same chart object after a legitimate change of it
+        edits = [e for e in EDITS if not (ints and e.startswith("rate"))]
+        if _single_row_reversed(case):
+            edits = [e for e in edits if not e.startswith("append_h")]    # keeps that class (see _check_call) recognisable
+        case["then"] = [[rng.choice(SETTINGS), rng.choice(SETTINGS), "edited", rng.choice(edits)]]
+    if rng.random() < 0.15:     # non-default values in every game-specific column of the notes
+        case["fields"] = True
+    if holds and not ints and rng.random() < 0.06:
+        # a hold of negative length as the LAST note of its column (it keeps its kind and length)
+        t_last = max(x[0] for x in hits + holds)
+        holds.append([t_last + 1000.0, rng.choice(cols), -30.0])
     if game == "sm" and rng.random() < 0.12:
         ex = {}
         kind = rng.choice(["mines", "rolls", "lifts", "fakes"])
@@ -367,8 +459,14 @@ def _features(case):
             f.add(f"{k}={case[k]}")
     for k, v in (case.get("labels") or {}).items():
         f.add(f"labels[{k}]={v}")
-    for _, _, mode in case.get("then") or []:
-        f.add(f"then={mode}")
+    for _, _, mode, *edit in case.get("then") or []:
+        f.add(f"then={mode}" + (":" + edit[0] if edit else ""))
+    if case.get("fields"):
+        f.add("game_specific_fields_filled")
+    if any(c > 6 for _, c in notes):
+        f.add("wide_columns")
+    if any(ln < 0 for _, _, ln in case["holds"]):
+        f.add("negative_length_last_hold")
     return f
 
 
@@ -382,6 +480,8 @@ def full_ln_vs_statement(rep):
                  f"30% of the calls not positional ({', '.join(CALLS)}; left-out arguments are the documented defaults gap={DEFAULT_GAP}, ln_as_hit_thres={DEFAULT_THRES}); "
                  f"35% of the charts with other row labels than 0..n-1 ({', '.join(LABELS)}) on hits / holds / tempo list / SV list independently; 25% with the tempo list and SV list {' / '.join(TEMPO)} instead of two rows; "
                  "15% with a second call (on the first result, or on the same input object again), each call checked against the notes it was given; "
+                 f"17% with a second call on the SAME chart object after a public edit of it ({', '.join(EDITS)}), judged against the notes it holds then; "
+                 f"15% with non-default values in every game-specific note column (names read from the lists' frames); 8% columns from {WIDE_COLUMNS}; 6% a negative-length hold as the last note of a column; "
                  "classes osu, sm, bms, o2j, base Map (and quaver at 1/12); "
                  "every chart carries rows in each other list of its game unless its tempo list is empty; 12% of the sm charts also carry a mine / roll / lift / fake")
     rep.rule = "a case is one (game, hits, holds, gap, threshold, call form, labels, tempo / SV shape, second call); non-trivial when some column has >= 2 notes (a note with a next note exists)"
